@@ -33,7 +33,7 @@ def run(tier, seed):
         v.sample({k: rec[k] for k in ('nper', 'ndim', 'ncov', 'nids', 'sel', 'normsel', 'vartheta', 'dbeta', 'betaslots')})
     nt = v.counters.get('feat_unsorted_or_duplicate_selection', 0)
     if nt == 0 or v.counters.get('feat_duplicates', 0) == 0:
-        raise MachineryError('vacuous run: no unsorted / duplicated selection')
+        v.vacuous('vacuous run: no unsorted / duplicated selection')
     cov = dict(states=out['run']['states'], transitions=out['run']['transitions'],
                traces_validated_against_impl=len(recs), evaluations=v.counters.get('evaluations', 0),
                distinct_nontrivial=nt, exhaustive=True,
